@@ -206,22 +206,39 @@ class AppCache:
         self.limit = limit
         self.Handled, self.HandledChild = make_handled(falcon)
 
-    def get(self, asgi, indep, shapes, naming, hook_shape, class_level):
-        key = (asgi, indep, shapes, naming, hook_shape, class_level)
+    def get(self, asgi, indep, shapes, naming, hook_shape, class_level, split=None):
+        """Returns (app, oks): oks = which add_middleware calls returned normally.
+        split: [(n, kind)] - the first entry is the constructor argument, the others are
+        add_middleware calls; kind 0 list, 1 bare component (n == 1), 2 None (n == 0), 3 tuple."""
+        split = tuple(tuple(x) for x in (split or [(len(shapes), 0)]))
+        key = (asgi, indep, shapes, naming, hook_shape, class_level, split)
         app = self.cache.get(key)
         if app is not None:
             return app
         falcon = self.falcon
         Handled = self.Handled
+        mws = [build_component(falcon, Handled, asgi, i, sh, naming[i] if naming else 0)
+               for i, sh in enumerate(shapes)]
+        args, pos = [], 0
+        for n, kind in split:
+            part = mws[pos:pos + n]
+            pos += n
+            args.append(None if kind == 2 else part[0] if kind == 1 else tuple(part) if kind == 3 else list(part))
+        assert pos == len(mws)
+        oks = []
         try:
-            mws = [build_component(falcon, Handled, asgi, i, sh, naming[i] if naming else 0)
-                   for i, sh in enumerate(shapes)]
             App = falcon.asgi.App if asgi else falcon.App
-            app = App(middleware=mws, independent_middleware=indep)
+            app = App(middleware=args[0], independent_middleware=indep)
         except TypeError as e:
-            app = 'TypeError'
+            app = ('TypeError', [])
             self.cache[key] = app
             return app
+        for a in args[1:]:
+            try:
+                app.add_middleware(a)
+                oks.append(1)
+            except TypeError:
+                oks.append(0)
         app.add_route('/r', build_resource(falcon, Handled, asgi, hook_shape, class_level))
         if asgi:
             async def sink(req, resp, **kw):
@@ -262,8 +279,8 @@ class AppCache:
         app.add_error_handler(falcon.HTTPBadRequest, h_meta)
         if len(self.cache) >= self.limit:
             self.cache.clear()
-        self.cache[key] = app
-        return app
+        self.cache[key] = (app, oks)
+        return app, oks
 
 
 # ------------------------------------------------------------------ cases
@@ -277,16 +294,44 @@ def case_key(c):
 
 
 def mk_case(asgi, indep, comps, meta=0, route=0, hooks=(), responder=0, naming=None, class_level=0,
-            variant=0):
+            variant=0, split=None):
     """comps: list of [req, rsrc, resp, startup, shutdown] (action codes, -1 = absent)."""
     return {'asgi': int(asgi), 'indep': int(indep), 'comps': [list(c) for c in comps], 'meta': int(meta),
             'route': route, 'hooks': [list(h) for h in hooks], 'responder': responder,
             'naming': list(naming) if naming else [0] * len(comps), 'class_level': class_level,
-            'variant': variant}
+            'variant': variant, 'split': [list(x) for x in (split or [[len(comps), 0]])]}
+
+
+def wire_batches(c):
+    out, pos = [], 0
+    for n, kind in c.get('split') or [[len(c['comps']), 0]]:
+        part = c['comps'][pos:pos + n]
+        pos += n
+        out.append([0] if kind == 2 else [1, part[0]] if kind == 1 else [2, part])
+    return out
 
 
 def wire_case(c):
-    return [0, c['asgi'], c['indep'], c['comps'], [c['meta'], c['route'], c['hooks'], c['responder']]]
+    """op 3: the stack built in steps (constructor + add_middleware calls)"""
+    b = wire_batches(c)
+    return [3, c['asgi'], c['indep'], b[0], b[1:], [c['meta'], c['route'], c['hooks'], c['responder']]]
+
+
+def wire_flat(c, comps):
+    """op 0: prepare of a flat component list + spec + oracle on the model's own trace"""
+    return [0, c['asgi'], c['indep'], comps, [c['meta'], c['route'], c['hooks'], c['responder']]]
+
+
+def effective_comps(c, oks):
+    """the components of the batches up to (excluding) the first add_middleware call that
+    raised TypeError: the list the app's stacks were last prepared from"""
+    split = c.get('split') or [[len(c['comps']), 0]]
+    n = split[0][0]
+    for (k, kind), ok in zip(split[1:], oks):
+        if not ok:
+            break
+        n += k
+    return c['comps'][:n]
 
 
 def set_script(c):
@@ -303,7 +348,8 @@ def set_script(c):
 
 def get_app(cache, c):
     return cache.get(bool(c['asgi']), bool(c['indep']), tuple(shape_of(x) for x in c['comps']),
-                     tuple(c['naming']), tuple(bool(h[0]) for h in c['hooks']), c['class_level'])
+                     tuple(c['naming']), tuple(bool(h[0]) for h in c['hooks']), c['class_level'],
+                     c.get('split'))
 
 
 _ENV = {}
@@ -397,19 +443,19 @@ class Runner:
         res = [None] * len(cases)
         asgi_idx = []
         for n, c in enumerate(cases):
-            app = get_app(self.cache, c)
+            app, oks = get_app(self.cache, c)
             if app == 'TypeError':
                 res[n] = 'TypeError'
             elif c['asgi']:
-                asgi_idx.append((n, app))
+                asgi_idx.append((n, app, oks))
             else:
                 t, e = run_wsgi(self.testing, app, c)
-                res[n] = (canon_trace(t), e)
+                res[n] = (canon_trace(t), e, oks)
 
         async def go():
-            for n, app in asgi_idx:
+            for n, app, oks in asgi_idx:
                 t, e = await run_asgi(self.testing, app, cases[n])
-                res[n] = (canon_trace(t), e)
+                res[n] = (canon_trace(t), e, oks)
         if asgi_idx:
             asyncio.run(go())
         return res
@@ -419,34 +465,44 @@ class Runner:
         impl = self.impl_batch(cases)
         outs = self.model.run_many([wire_case(c) for c in cases])
         ocases, oidx = [], []
+        flat, flat_idx = [], []
         for n, (c, r, m) in enumerate(zip(cases, impl, outs)):
             ctx.count(label)
-            if m[0] == 0:
-                mres = 'TypeError'
-            else:
-                mres = (m[1], model_ending(m[2]))
-                if m[5] or m[1] != m[3] or model_ending(m[2]) != model_ending(m[4]):
-                    ctx.violation('model-fails-own-oracle', {'case': c, 'model': m}, found_input=False,
-                                  key='model-oracle')
+            if len(c.get('split') or []) > 1:
+                ctx.count('built-in-steps')
+            mres = 'TypeError' if m[0] == 0 else (m[1], model_ending(m[2]), m[3])
             nontrivial = r != 'TypeError' and len(r[0]) > 0
             ctx.note_case(case_key(c), nontrivial)
             if r == 'TypeError' or mres == 'TypeError':
                 if r != mres:
                     self.report(c, r, mres, [0])
                 continue
-            ocases.append([1, c['indep'], c['comps'], [c['meta'], c['route'], c['hooks'], c['responder']],
+            if list(r[2]) != list(mres[2]):
+                self.report(c, r, mres, [5])
+            eff = effective_comps(c, r[2])
+            ocases.append([1, c['indep'], eff, [c['meta'], c['route'], c['hooks'], c['responder']],
                            r[0], 2 if r[1] == 'propagated' else 1])
             oidx.append(n)
+            flat.append(wire_flat(c, eff))
+            flat_idx.append(n)
             if r[1] not in ('finished', 'propagated') or any(e[0] == 9 for e in r[0]):
                 self.report(c, r, mres, [0])
+        # the model through add_middleware histories must agree with prepare(concatenation),
+        # with the spec and with its own oracle (all proved; checked on the extracted code)
+        for n, f in zip(flat_idx, self.model.run_many(flat)):
+            m = outs[n]
+            if f[0] == 0 or f[5] or f[1] != f[3] or f[1] != m[1] or model_ending(f[2]) != model_ending(m[2]) \
+                    or model_ending(f[2]) != model_ending(f[4]):
+                ctx.violation('model-fails-own-oracle', {'case': cases[n], 'batches': m, 'flat': f},
+                              found_input=False, key='model-oracle')
         fails = self.model.run_many(ocases)
         for n, f in zip(oidx, fails):
             c, r = cases[n], impl[n]
             m = outs[n]
-            mres = (m[1], model_ending(m[2]))
+            mres = (m[1], model_ending(m[2]), m[3])
             if f[1]:
                 self.report(c, r, mres, f[1])
-            elif (r[0], r[1]) != mres:
+            elif (r[0], r[1]) != mres[:2]:
                 # cannot happen while oracle clause 1 is the full trace equality, kept as a guard
                 ctx.violation('correspondence-broken', {'case': c, 'impl': r, 'model': mres,
                                                         'broken': 'C03.run_request_corr'},
@@ -456,11 +512,14 @@ class Runner:
     def report(self, c, r, mres, clauses):
         self.bad += 1
         names = {0: 'middleware acceptance / foreign exception / protocol', 1: 'call order differs from the documented discipline',
-                 2: 'req_succeeded flag', 3: 'call after unhandled raise / ending', 4: 'response methods once each'}
+                 2: 'req_succeeded flag', 3: 'call after unhandled raise / ending', 4: 'response methods once each',
+                 5: 'which add_middleware calls raised TypeError'}
         self.ctx.violation('call-order-violated',
                            {'case': c, 'impl_trace': r if r == 'TypeError' else r[0],
                             'impl_ending': r if r == 'TypeError' else r[1],
-                            'expected': mres if mres == 'TypeError' else {'trace': mres[0], 'ending': mres[1]},
+                            'impl_add_middleware_ok': None if r == 'TypeError' else r[2],
+                            'expected': mres if mres == 'TypeError' else {'trace': mres[0], 'ending': mres[1],
+                                                                          'add_middleware_ok': mres[2]},
                             'clauses_failed': clauses, 'clause_names': {str(k): names[k] for k in clauses},
                             'legend': 'events: [0,[site,idx],action] call | [1,idx,action,resource_present,req_succeeded] '
                                       'process_response | [2,[site,idx],handler_action]; sites 0 req 1 rsrc 2 resp 3 hook '
@@ -476,7 +535,7 @@ class Runner:
             pass
 
         async def one(c):
-            app = get_app(self.cache, c)
+            app, oks = get_app(self.cache, c)
             if app == 'TypeError':
                 return 'TypeError'
             msgs = list(c['msgs'])
@@ -508,15 +567,19 @@ class Runner:
                 res.append(await one(c))
         asyncio.run(go())
         outs = self.model.run_many([[2, c['comps'], c['msgs']] for c in cases])
-        for c, r, m in zip(cases, res, outs):
+        outs4 = self.model.run_many([[4, wire_batches(c)[0], wire_batches(c)[1:], c['msgs']] for c in cases])
+        for c, r, m, m4 in zip(cases, res, outs, outs4):
             ctx.count('lifespan')
             ctx.note_case('L' + case_key(c), r != 'TypeError' and len(r[0]) > 0)
             if r == 'TypeError':
+                if m4[0] != 0:
+                    ctx.violation('lifespan-order-violated', {'case': c, 'impl': r, 'expected': m4}, key='lifespan-te')
                 continue
             model = [m[1], m[2]]
             spec = [m[3], m[4]]
-            if model != spec:
-                ctx.violation('model-fails-own-oracle', {'case': c, 'model': model, 'spec': spec},
+            # lifespan handlers come from the whole accumulated list, also after a TypeError
+            if model != spec or m4[0] != 1 or [m4[1], m4[2]] != spec:
+                ctx.violation('model-fails-own-oracle', {'case': c, 'model': model, 'spec': spec, 'batches': m4},
                               found_input=False, key='lmodel')
             if r != spec:
                 ctx.violation('lifespan-order-violated',
@@ -557,8 +620,50 @@ def random_case(rng, maxn=5, lifespan=False):
                 meta=rng.random() < 0.05, route=rng.choice([0, 0, 0, 1, 2, 3]), hooks=hooks,
                 responder=0 if rng.random() < 0.5 else rng.choice(ACTIONS),
                 naming=[rng.randint(0, 1) for _ in comps], class_level=rng.randint(0, len(hooks)),
-                variant=rng.randint(0, 5))
+                variant=rng.randint(0, 5), split=random_split(rng, len(comps)) if rng.random() < 0.6 else None)
     return c
+
+
+def random_split(rng, n):
+    """constructor argument + 1-3 add_middleware calls: list / tuple / bare component / None"""
+    k = rng.randint(2, 4)
+    cuts = sorted(rng.randint(0, n) for _ in range(k - 1))
+    sizes = [b - a for a, b in zip([0] + cuts, cuts + [n])]
+    out = []
+    for sz in sizes:
+        if sz == 0:
+            out.append([0, rng.choice([2, 0, 3])])
+        elif sz == 1:
+            out.append([1, rng.choice([1, 1, 0, 3])])
+        else:
+            out.append([sz, rng.choice([0, 3])])
+    return out
+
+
+def split_sweep(modes):
+    """every split of a 4-component stack (all methods, distinct behaviour per phase) into a
+    constructor batch and 1-3 add_middleware calls, bare components where a batch has one"""
+    comps = [[0, 0, 0, 0, 0], [0, -1, 0, -1, 0], [-1, 0, 0, 0, -1], [0, 0, 0, 0, 0]]
+    variants = [comps,
+                [[0, 0, 0, 0, 0], [3, -1, 0, -1, 0], [-1, 0, 0, 0, -1], [0, 0, 0, 0, 0]],
+                [[0, 0, 0, 0, 0], [0, -1, 3, -1, 0], [-1, 1, 0, 0, -1], [0, 0, 4, 0, 0]],
+                [[0, 0, 0, 0, 0], [1, -1, 0, -1, 0], [-1, 0, 0, 0, -1], [0, 0, 0, 0, 0]]]
+    n = 4
+    for k in (2, 3, 4):
+        for cuts in itertools.combinations_with_replacement(range(n + 1), k - 1):
+            sizes = [b - a for a, b in zip((0,) + cuts, cuts + (n,))]
+            for bare in (0, 1):
+                split = [[sz, (2 if sz == 0 else 1 if (sz == 1 and bare) else 3 if bare else 0)] for sz in sizes]
+                for cs in variants:
+                    for asgi, indep in modes:
+                        yield mk_case(asgi, indep, cs, split=split)
+    # a method-less component added later: add_middleware raises TypeError, the app keeps
+    # its previous stacks (but the component stays in the accumulated list)
+    bad = [-1, -1, -1, -1, -1]
+    for asgi, indep in modes:
+        yield mk_case(asgi, indep, [comps[0], bad, comps[1]], split=[[1, 0], [1, 1], [1, 0]])
+        yield mk_case(asgi, indep, [comps[0], comps[1], bad], split=[[1, 1], [2, 0]])
+        yield mk_case(asgi, indep, [bad, comps[1]], split=[[1, 0], [1, 0]])
 
 
 def fault_sweep(modes):
@@ -630,6 +735,9 @@ def main(ctx):
     # 2. fault sweep on a full stack
     cases = list(fault_sweep(MODES))
     r.check(cases, 'fault-sweep')
+    # 2b. stacks built in several steps: App(middleware=...) then add_middleware(...) calls
+    cases = list(split_sweep(MODES))
+    r.check(cases, 'split-sweep')
     # 3. random deep stacks
     n = 3000 if quick else 40000
     cases = [random_case(ctx.rng) for _ in range(n)]
